@@ -38,8 +38,9 @@ Proof. exact @verify_thm. Qed.
 Print Assumptions c15_verify.
 
 (* whatever verifies under the signer's certificate has the message value, RelayState, SigAlg and Signature
-   parameter of the signed URL — provided the Signature parameter presented is the URL's own or does not
-   decode to a signature made with the signer's key (no_other_sig) *)
+   parameter of the signed URL — provided the Signature parameter presented is the URL's own or is not the
+   base64 text of another signature made with the signer's key (no_other_sig: the adversary knows this one
+   signature of the signer; every other change of the parameter is inside the quantifier) *)
 Theorem c15_tamper : forall (key cert : Type) (cert_of : key -> cert) sign verify,
   ideal cert_of sign verify ->
   forall k t v r al args own q,
@@ -57,7 +58,7 @@ Theorem c15_sound : forall (key cert : Type) (cert_of : key -> cert) sign verify
   forall own q c, verify_redirect_signature cert_of verify own q (Some c) = VTrue ->
   exists a d t v sp k, get q "SigAlg" = Some a /\ digest_of a = Some d /\ vview q = Some (t, v)
     /\ get q "Signature" = Some sp /\ c = cert_of k
-    /\ decode_str sp = Some (sign k d (octets_of t v (get q "RelayState") a)).
+    /\ sp = encode (sign k d (octets_of t v (get q "RelayState") a)).
 Proof. exact @accept_sound. Qed.
 Print Assumptions c15_sound.
 
@@ -80,13 +81,13 @@ Theorem c15_property : forall (key cert : Type) (cert_of : key -> cert) sign ver
 Proof. exact @spec_holds. Qed.
 Print Assumptions c15_property.
 
-(* finding C15-F1: without the guard the property is false — the Signature parameter is decoded leniently,
-   so a changed Signature parameter ("!" prepended) still verifies *)
-Theorem c15_f1_refuted : forall (key cert : Type) (cert_of : key -> cert) sign verify,
+(* finding C15-F1 (repaired by fix: 9a4284f6): the pinned snapshot decoded the Signature parameter leniently,
+   so a changed Signature parameter ("!" prepended) still verified — the property is false of model_v0 *)
+Theorem c15_f1_v0_refuted : forall (key cert : Type) (cert_of : key -> cert) sign verify,
   ideal cert_of sign verify -> key ->
-  exists x : input key cert, ~ spec cert_of x (model cert_of sign verify x).
+  exists x : input key cert, ~ spec cert_of x (model_v0 cert_of sign verify x).
 Proof. exact @f1_refuted. Qed.
-Print Assumptions c15_f1_refuted.
+Print Assumptions c15_f1_v0_refuted.
 
 (* the boolean spec that Coq evaluates on the implementation's recorded outputs is the stated spec *)
 Theorem c15_spec_reflect : forall (key cert : Type) (cert_of : key -> cert) (cert_eqb : cert -> cert -> bool),
@@ -102,7 +103,7 @@ Theorem c15_request : forall (key cert : Type) (cert_of : key -> cert) sign veri
   forall own certs origdoc rs sigalg signature,
   loads_redirect cert_of verify own certs true origdoc rs sigalg signature = true ->
   exists a sp d k, sigalg = Some a /\ signature = Some sp /\ In (cert_of k) certs /\ digest_of a = Some d
-    /\ decode_str sp = Some (sign k d (octets_of "SAMLRequest" origdoc rs a)).
+    /\ sp = encode (sign k d (octets_of "SAMLRequest" origdoc rs a)).
 Proof. exact @request_sound. Qed.
 Print Assumptions c15_request.
 
